@@ -331,6 +331,40 @@ def run(E: Engine, rep: Report, tier: str) -> dict:
     two_d_only = any(isinstance(n_, (ast.Tuple,)) and isinstance(n_.ctx, ast.Store) and [getattr(e_, "id", None) for e_ in n_.elts] == ["x", "y"] for n_ in ast.walk(wm_f.node))
     rep.check(not two_d_only, "TABLE", "WeightMap._to_abstract_repr|all-coordinates-written", "no `(x, y)` unpacking of a trap's coordinates",
               "WeightMap._to_abstract_repr unpacks every trap as (x, y): a detuning map defined on a 3D register / layout (supported by define_detuning_map, sampled and legacy-encoded fine) makes Sequence.to_abstract_repr() raise 'too many values to unpack'", E.where(wm_f))
+    # ---- round 5 (independent audit) ----
+    # (a) the encoder writes a complex number as {"real":, "imag":}; every decoder converts it back (_convert_complex) --
+    #     Results included
+    rf = E.method("pulser.backend.results.Results", "_from_abstract_repr")
+    st_res = [l for l in _S(E, rf, inline=False).logged("store") if l.target is not None and l.target[0] == "idx" and _show_(l.target[1]).endswith("._results")]
+    if not st_res:
+        raise AnalysisError("anchor: Results._from_abstract_repr no longer fills _results")
+    for l in st_res:
+        rep.check(any(t[0] == "call" and t[1] == ("name", "_convert_complex") for t in _subterms_(l.value)), "TABLE", "Results._from_abstract_repr|complex-values-converted-back", "decoded values pass through _convert_complex", "Results._from_abstract_repr stores the raw JSON value: a complex result (an expectation value of a non-Hermitian operator, a complex matrix) is serialised as {'real': .., 'imag': ..} and comes back as a dict", E.where(rf, l.node))
+    # (b) qubit IDs are serialised as strings everywhere (register, sequence, results): the results schema requires strings
+    rt = E.method("pulser.backend.results.Results", "_to_abstract_repr")
+    ao = [l for l in _S(E, rt, inline=False).log if l.value is not None and any(t[0] == "dict" or t[0] == "call" for t in [l.value])]
+    r_rt = _S(E, rt).ret
+    ao_val = None
+    for t in _subterms_(r_rt) if r_rt is not None else ():
+        if t[0] == "dict":
+            for k_, v_ in zip(t[1::2], t[2::2]) if len(t) % 2 == 1 else ():
+                if k_ == ("const", "atom_order"):
+                    ao_val = v_
+    if ao_val is None:
+        for l in _S(E, rt).log:
+            for v_ in (l.value,):
+                if v_ is not None and "atom_order" in _show_(v_)[:4000] and ao_val is None:
+                    ao_val = v_
+    rep.check(ao_val is not None and any(t[0] == "call" and t[1] == ("name", "stringify_qubit_ids") for t in _subterms_(ao_val)), "TABLE", "Results._to_abstract_repr|atom_order-stringified", "atom_order goes through stringify_qubit_ids", "Results._to_abstract_repr writes atom_order as it is: with integer qubit IDs (the default of Register.square) the document fails the results schema ('3 is not of type string')", E.where(rt))
+    # (c) the in-place-modification check of State._to_abstract_repr compares with the rebuilt state's own norm, not with
+    #     the constant 1.0 (states built from non-normalised amplitudes are legal)
+    stf = E.method("pulser.backend.state.State", "_to_abstract_repr")
+    chk = [l for l in _S(E, stf, inline=False).logged("raise") if "overlap" in _show_(l.cond)[:2000]]
+    if not chk:
+        raise AnalysisError("anchor: State._to_abstract_repr no longer checks the overlap with the rebuilt state")
+    for l in chk:
+        n_ov = sum(1 for t in _subterms_(l.cond) if t[0] == "call" and t[1][0] == "attr" and t[1][2] == "overlap")
+        rep.check(n_ov >= 2, "TABLE", "State._to_abstract_repr|reference-is-the-rebuilt-state's-norm", "|<self|rebuilt> - <rebuilt|rebuilt>| is tested", "State._to_abstract_repr compares the overlap with the rebuilt state with the constant 1.0: a state created from non-normalised amplitudes (the docstring example of from_state_amplitudes) cannot be serialised ('was modified in place after its creation')", E.where(stf, l.node))
     # decoder side of the same clause: whether an optional key is *present* is asked with `key in obj`.  Taking the
     # truthiness of the stored value instead (`if obj.get(key):`) treats an empty list / 0 / False as absent and falls
     # back to the class default.  On the tree the only JSON values used as conditions are booleans (table below).
